@@ -42,168 +42,144 @@ Qed.
 Lemma scalar_char : forall v, is_scalar v = true -> char_from_u32 v = Some v.
 Proof. intros v H. unfold char_from_u32. unfold is_scalar in H. rewrite H. reflexivity. Qed.
 
-Lemma braced_scalar : forall hex v, positional 16 hex = Some v -> is_scalar v = true -> braced_char hex = Some v.
+Lemma braced_eq : forall hex w, positional 16 hex = Some w ->
+  braced_char hex = if is_scalar w then Some w else None.
 Proof.
-  intros hex v H Hs. unfold braced_char. rewrite (u32_of_positional hex v H).
-  - apply scalar_char. exact Hs.
-  - unfold is_scalar in Hs. unfold u32_max. lia.
+  intros hex w H. unfold braced_char, u32_from_str_radix.
+  change 16 with (N.of_nat 16). rewrite (from_str_radix_spec 16) by (auto || eapply positional_hd_not_plus; eauto).
+  rewrite H. unfold bounded, u32_max. destruct (w <=? 4294967295) eqn:E.
+  - reflexivity.
+  - unfold is_scalar. replace (w <=? 1114111) with false by lia. reflexivity.
 Qed.
 
-(* ---------- one-character escapes ---------- *)
-Lemma simple_escape_model : forall e w r1, simple_escape 34 e = Some w ->
-  unescape_st UNorm (92 :: e :: r1) = w :: unescape_st UNorm r1.
+Lemma u32_brace_none : forall l, u32_from_str_radix 16 (123 :: l) = None.
+Proof. intros l. destruct l; reflexivity. Qed.
+Lemma positional_brace_none : forall l, positional 16 (123 :: l) = None.
+Proof. intros l. reflexivity. Qed.
+
+Lemma hexdig_value : forall c, is_hexdig c = true -> exists d, digit_value 16 c = Some d.
 Proof.
-  intros e w r1 H. unfold simple_escape in H.
-  destruct (e =? 34) eqn:E1; [apply N.eqb_eq in E1; subst e; inversion H; reflexivity|].
-  destruct (e =? 47) eqn:E2; [apply N.eqb_eq in E2; subst e; inversion H; reflexivity|].
-  destruct (e =? 92) eqn:E3; [apply N.eqb_eq in E3; subst e; inversion H; reflexivity|].
-  destruct (e =? 98) eqn:E4; [apply N.eqb_eq in E4; subst e; inversion H; reflexivity|].
-  destruct (e =? 102) eqn:E5; [apply N.eqb_eq in E5; subst e; inversion H; reflexivity|].
-  destruct (e =? 110) eqn:E6; [apply N.eqb_eq in E6; subst e; inversion H; reflexivity|].
-  destruct (e =? 114) eqn:E7; [apply N.eqb_eq in E7; subst e; inversion H; reflexivity|].
-  destruct (e =? 116) eqn:E8; [apply N.eqb_eq in E8; subst e; inversion H; reflexivity|].
-  rewrite andb_false_r in H. discriminate.
+  intros c H. assert (Hc : c < 128) by (unfold is_hexdig, is_digit in H; lia).
+  assert (Hall : (fun c => negb (is_hexdig c) || match digit_value 16 c with Some _ => true | None => false end) c = true).
+  { clear H. revert c Hc. apply (forallb_below _ 128). vm_compute. reflexivity. }
+  cbv beta in Hall. rewrite H in Hall. cbn [negb orb] in Hall.
+  destruct (digit_value 16 c) as [d|]; [eauto | discriminate].
 Qed.
 
-Lemma simple_escape_117 : forall q, simple_escape q 117 = None.
-Proof. intros q. unfold simple_escape. cbn. reflexivity. Qed.
-
-(* unfolding of the model at \u followed by something that is not '{' *)
-Lemma model_u4 : forall h1 h2 h3 h4 r5, (h1 =? 123) = false ->
-  unescape_st UNorm (92 :: 117 :: h1 :: h2 :: h3 :: h4 :: r5) =
-  match u32_from_str_radix 16 [h1; h2; h3; h4] with
-  | None => unescape_st UNorm r5
-  | Some cp =>
-    if (55296 <=? cp) && (cp <=? 56319) then
-      match r5 with
-      | bs :: u :: r7 =>
-        if (bs =? 92) && (u =? 117) then
-          match r7 with
-          | l1 :: l2 :: l3 :: l4 :: r11 =>
-            match u32_from_str_radix 16 [l1; l2; l3; l4] with
-            | None => unescape_st UNorm r11
-            | Some low =>
-              if (56320 <=? low) && (low <=? 57343) then
-                push_opt (char_from_u32 (65536 + (cp - 55296) * 1024 + (low - 56320))) (unescape_st UNorm r11)
-              else unescape_st UNorm r11
-            end
-          | short =>
-            match u32_from_str_radix 16 short with
-            | None => []
-            | Some low =>
-              if (56320 <=? low) && (low <=? 57343) then
-                push_opt (char_from_u32 (65536 + (cp - 55296) * 1024 + (low - 56320))) []
-              else []
-            end
-          end
-        else unescape_st UNorm r5
-      | _ => unescape_st UNorm r5
-      end
-    else push_opt (char_from_u32 cp) (unescape_st UNorm r5)
-  end.
+Lemma hexdigs_positional_acc : forall l acc, forallb is_hexdig l = true -> exists w, positional_acc 16 acc l = Some w.
 Proof.
-  intros h1 h2 h3 h4 r5 Hb.
-  change (unescape_st UNorm (92 :: 117 :: h1 :: h2 :: h3 :: h4 :: r5)) with
-    (if h1 =? 123 then unescape_st (UBrace []) (h2 :: h3 :: h4 :: r5)
-     else match u32_from_str_radix 16 [h1; h2; h3; h4] with
-  | None => unescape_st UNorm r5
-  | Some cp =>
-    if (55296 <=? cp) && (cp <=? 56319) then
-      match r5 with
-      | bs :: u :: r7 =>
-        if (bs =? 92) && (u =? 117) then
-          match r7 with
-          | l1 :: l2 :: l3 :: l4 :: r11 =>
-            match u32_from_str_radix 16 [l1; l2; l3; l4] with
-            | None => unescape_st UNorm r11
-            | Some low =>
-              if (56320 <=? low) && (low <=? 57343) then
-                push_opt (char_from_u32 (65536 + (cp - 55296) * 1024 + (low - 56320))) (unescape_st UNorm r11)
-              else unescape_st UNorm r11
-            end
-          | short =>
-            match u32_from_str_radix 16 short with
-            | None => []
-            | Some low =>
-              if (56320 <=? low) && (low <=? 57343) then
-                push_opt (char_from_u32 (65536 + (cp - 55296) * 1024 + (low - 56320))) []
-              else []
-            end
-          end
-        else unescape_st UNorm r5
-      | _ => unescape_st UNorm r5
-      end
-    else push_opt (char_from_u32 cp) (unescape_st UNorm r5)
-  end).
-  rewrite Hb. reflexivity.
+  induction l as [|c l IH]; intros acc H; cbn [positional_acc]; [eauto|].
+  cbn [forallb] in H. apply andb_prop in H. destruct H as [Hc Hl].
+  destruct (hexdig_value c Hc) as [d ->]. apply IH. exact Hl.
+Qed.
+Lemma hexdigs_positional : forall l, l <> [] -> forallb is_hexdig l = true -> exists w, positional 16 l = Some w.
+Proof. intros l Hn H. unfold positional. destruct l; [congruence|]. apply hexdigs_positional_acc. exact H. Qed.
+
+Lemma hex4_forallb : forall a b c d, is_hexdig a && is_hexdig b && is_hexdig c && is_hexdig d = true ->
+  forallb is_hexdig [a; b; c; d] = true.
+Proof.
+  intros a b c d H. cbn [forallb].
+  destruct (is_hexdig a), (is_hexdig b), (is_hexdig c), (is_hexdig d); try discriminate; reflexivity.
 Qed.
 
-Lemma model_ubrace : forall r2, unescape_st UNorm (92 :: 117 :: 123 :: r2) = unescape_st (UBrace []) r2.
-Proof. intros. reflexivity. Qed.
+Lemma push_cons_opt : forall c o, push c o = cons_opt c o.
+Proof. intros c [l|]; reflexivity. Qed.
 
 Lemma cons_opt_some : forall c o v, cons_opt c o = Some v -> exists v', o = Some v' /\ v = c :: v'.
 Proof. intros c [v'|] v H; cbn in H; [inversion H; eauto | discriminate]. Qed.
 
 (* ---------- main lemma: where the specification assigns a value, the model stores that value ---------- *)
-Definition text_agree (q : N) (s : list N) : Prop :=
-  (forall v, denote_st q DNorm s = Some v -> unescape_st UNorm s = v)
-  /\ (forall acc v, denote_st q (DBrace acc) s = Some v -> unescape_st (UBrace acc) s = v).
+(* ---------- main lemma: on every spelling the grammar admits, the model computes the denotation ---------- *)
+Definition text_agree (s : list N) : Prop :=
+  (text_inner_ok TNorm s = true -> unescape_st UNorm s = denote_st 34 DNorm s)
+  /\ (forall acc, forallb is_hexdig acc = true -> text_inner_ok (TBrace (nonempty acc)) s = true ->
+        unescape_st (UBrace acc) s = denote_st 34 (DBrace acc) s).
 
-Lemma text_core : forall n s, (length s <= n)%nat -> text_agree 34 s.
+Lemma text_core : forall n s, (length s <= n)%nat -> text_agree s.
 Proof.
   induction n as [|n IH]; intros s Hlen.
-  - destruct s; [|cbn in Hlen; lia]. split; [intros v H; inversion H; reflexivity | intros acc v H; discriminate].
-  - destruct s as [|c r]; [split; [intros v H; inversion H; reflexivity | intros acc v H; discriminate]|].
-    assert (Hr : text_agree 34 r) by (apply IH; cbn in Hlen; lia).
+  - destruct s; [|cbn in Hlen; lia]. split; [reflexivity | intros acc _ H; discriminate].
+  - destruct s as [|c r]; [split; [reflexivity | intros acc _ H; discriminate]|].
+    assert (Hr : text_agree r) by (apply IH; cbn in Hlen; lia).
     split.
     + (* normal state *)
-      intros v H. cbn [denote_st] in H.
+      intros Hg. cbn [text_inner_ok] in Hg. cbn [unescape_st denote_st].
       destruct (c =? 34) eqn:Eq; [discriminate|].
-      destruct (c =? 92) eqn:Ebs.
-      * cbn [negb] in H. apply N.eqb_eq in Ebs. subst c.
-        destruct r as [|e r1]; [discriminate|].
-        destruct (simple_escape 34 e) as [w|] eqn:Ese.
-        { apply cons_opt_some in H. destruct H as [v' [Hd ->]].
-          rewrite (simple_escape_model e w r1 Ese). f_equal.
-          assert (Hr1 : text_agree 34 r1) by (apply IH; cbn in Hlen; lia). apply Hr1. exact Hd. }
-        destruct (e =? 117) eqn:Eu; [|discriminate]. cbn [negb] in H. apply N.eqb_eq in Eu. subst e.
-        destruct r1 as [|b r2]; [discriminate|].
-        destruct (b =? 123) eqn:Eb.
-        { apply N.eqb_eq in Eb. subst b. rewrite model_ubrace.
-          assert (Hr2 : text_agree 34 r2) by (apply IH; cbn in Hlen; lia). apply Hr2. exact H. }
-        destruct r2 as [|h2 [|h3 [|h4 r5]]]; try discriminate.
-        rewrite (model_u4 b h2 h3 h4 r5 Eb).
-        destruct (positional 16 [b; h2; h3; h4]) as [w|] eqn:Ep; [|discriminate].
-        pose proof (positional_acc_4 _ _ _ _ _ Ep) as Hw.
-        rewrite (u32_of_positional _ _ Ep) by (unfold u32_max; lia).
-        unfold is_high_surrogate in H.
-        destruct ((55296 <=? w) && (w <=? 56319)) eqn:Ehi.
-        { (* surrogate pair *)
-          destruct r5 as [|bs [|u [|l1 [|l2 [|l3 [|l4 r11]]]]]]; try discriminate.
-          destruct ((bs =? 92) && (u =? 117)) eqn:Ebu; [|discriminate].
-          destruct (positional 16 [l1; l2; l3; l4]) as [lo|] eqn:Epl; [|discriminate].
-          pose proof (positional_acc_4 _ _ _ _ _ Epl) as Hlo.
-          rewrite (u32_of_positional _ _ Epl) by (unfold u32_max; lia).
-          unfold is_low_surrogate in H.
-          destruct ((56320 <=? lo) && (lo <=? 57343)) eqn:Elo; [|discriminate].
-          apply cons_opt_some in H. destruct H as [v' [Hd ->]].
-          rewrite scalar_char by (unfold is_scalar; lia). cbn [push_opt]. f_equal.
-          assert (Hr11 : text_agree 34 r11) by (apply IH; cbn in Hlen; lia). apply Hr11. exact Hd. }
-        unfold is_low_surrogate in H.
-        destruct ((56320 <=? w) && (w <=? 57343)) eqn:Elow; [discriminate|].
-        apply cons_opt_some in H. destruct H as [v' [Hd ->]].
-        rewrite scalar_char by (unfold is_scalar; lia). cbn [push_opt]. f_equal.
-        assert (Hr5 : text_agree 34 r5) by (apply IH; cbn in Hlen; lia). apply Hr5. exact Hd.
-      * cbn [negb] in H. apply cons_opt_some in H. destruct H as [v' [Hd ->]].
-        cbn [unescape_st]. rewrite Ebs. cbn [negb]. f_equal. apply Hr. exact Hd.
+      destruct (c =? 92) eqn:Ebs; cbn [negb].
+      2:{ rewrite push_cons_opt. f_equal. apply Hr. exact Hg. }
+      destruct r as [|e r1]; [discriminate|].
+      assert (Hr1 : text_agree r1) by (apply IH; cbn in Hlen; lia).
+      destruct (is_simple_escape e) eqn:Ese.
+      { (* one-character escapes *)
+        rewrite <- (proj1 Hr1 Hg). unfold is_simple_escape in Ese. unfold simple_escape.
+        destruct (e =? 110) eqn:E1; [apply N.eqb_eq in E1; subst e; apply push_cons_opt|].
+        destruct (e =? 114) eqn:E2; [apply N.eqb_eq in E2; subst e; apply push_cons_opt|].
+        destruct (e =? 116) eqn:E3; [apply N.eqb_eq in E3; subst e; apply push_cons_opt|].
+        destruct (e =? 92) eqn:E4; [apply N.eqb_eq in E4; subst e; apply push_cons_opt|].
+        destruct (e =? 34) eqn:E5; [apply N.eqb_eq in E5; subst e; apply push_cons_opt|].
+        destruct (e =? 39) eqn:E6; [apply N.eqb_eq in E6; subst e; discriminate|].
+        destruct (e =? 47) eqn:E7; [apply N.eqb_eq in E7; subst e; apply push_cons_opt|].
+        destruct (e =? 98) eqn:E8; [apply N.eqb_eq in E8; subst e; apply push_cons_opt|].
+        destruct (e =? 102) eqn:E9; [apply N.eqb_eq in E9; subst e; apply push_cons_opt|].
+        cbn in Ese. discriminate. }
+      destruct (e =? 117) eqn:Eu; [|discriminate].
+      assert (Hse : simple_escape 34 e = None).
+      { unfold is_simple_escape in Ese. unfold simple_escape.
+        destruct (e =? 34), (e =? 92), (e =? 47), (e =? 98), (e =? 102), (e =? 110), (e =? 114), (e =? 116); try discriminate.
+        rewrite andb_false_r. reflexivity. }
+      rewrite Hse. cbn [negb].
+      replace (e =? 110) with false by lia. replace (e =? 114) with false by lia. replace (e =? 116) with false by lia.
+      replace (e =? 92) with false by lia. replace (e =? 34) with false by lia. replace (e =? 39) with false by lia.
+      replace (e =? 47) with false by lia. replace (e =? 98) with false by lia. replace (e =? 102) with false by lia.
+      destruct r1 as [|b r2]; [discriminate|].
+      destruct (b =? 123) eqn:Eb.
+      { assert (Hr2 : text_agree r2) by (apply IH; cbn in Hlen; lia).
+        apply (proj2 Hr2 []); [reflexivity | exact Hg]. }
+      destruct r2 as [|h2 [|h3 [|h4 r5]]]; try discriminate.
+      apply andb_prop in Hg. destruct Hg as [Hhex Hg5].
+      destruct (hexdigs_positional [b; h2; h3; h4]) as [w Ep]; [discriminate | apply (hex4_forallb _ _ _ _ Hhex) |].
+      pose proof (positional_acc_4 _ _ _ _ _ Ep) as Hw.
+      rewrite Ep, (u32_of_positional _ _ Ep) by (unfold u32_max; lia).
+      assert (Hr5 : text_agree r5) by (apply IH; cbn in Hlen; lia).
+      unfold is_high_surrogate, is_low_surrogate.
+      destruct ((55296 <=? w) && (w <=? 56319)) eqn:Ehi.
+      * (* high surrogate *)
+        destruct r5 as [|bs [|u r7]]; [reflexivity | reflexivity |].
+        destruct ((bs =? 92) && (u =? 117)) eqn:Ebu.
+        2:{ destruct r7 as [|l1 [|l2 [|l3 [|l4 r11]]]]; reflexivity. }
+        apply andb_prop in Ebu. destruct Ebu as [Ebs' Eu']. apply N.eqb_eq in Ebs', Eu'. subst bs u.
+        cbn [text_inner_ok] in Hg5.
+        replace (92 =? 34) with false in Hg5 by reflexivity. replace (92 =? 92) with true in Hg5 by reflexivity.
+        replace (is_simple_escape 117) with false in Hg5 by reflexivity. replace (117 =? 117) with true in Hg5 by reflexivity.
+        destruct r7 as [|l1 r7']; [discriminate|].
+        destruct (l1 =? 123) eqn:El1.
+        { (* \uHHHH followed by \u{ : the four characters taken are not hex *)
+          apply N.eqb_eq in El1. subst l1.
+          destruct r7' as [|l2 [|l3 [|l4 r11]]]; cbn [andb]; rewrite u32_brace_none; reflexivity. }
+        destruct r7' as [|l2 [|l3 [|l4 r11]]]; try discriminate.
+        apply andb_prop in Hg5. destruct Hg5 as [Hhexl Hg11].
+        destruct (hexdigs_positional [l1; l2; l3; l4]) as [lo Epl]; [discriminate | apply (hex4_forallb _ _ _ _ Hhexl) |].
+        pose proof (positional_acc_4 _ _ _ _ _ Epl) as Hlo.
+        cbn [andb]. replace ((92 =? 92) && (117 =? 117)) with true by reflexivity.
+        rewrite Epl, (u32_of_positional _ _ Epl) by (unfold u32_max; lia).
+        destruct ((56320 <=? lo) && (lo <=? 57343)) eqn:Elo; [|reflexivity].
+        rewrite scalar_char by (unfold is_scalar; lia).
+        assert (Hr11 : text_agree r11) by (apply IH; cbn in Hlen; lia).
+        rewrite (proj1 Hr11 Hg11). apply push_cons_opt.
+      * destruct ((56320 <=? w) && (w <=? 57343)) eqn:Elow.
+        { unfold char_from_u32. replace ((w <=? 1114111) && negb ((55296 <=? w) && (w <=? 57343))) with false by lia. reflexivity. }
+        rewrite scalar_char by (unfold is_scalar; lia). rewrite (proj1 Hr5 Hg5). apply push_cons_opt.
     + (* inside \u{ *)
-      intros acc v H. cbn [denote_st] in H. cbn [unescape_st].
+      intros acc Hacc Hg. cbn [text_inner_ok] in Hg. cbn [unescape_st denote_st].
       destruct (c =? 125) eqn:Ec.
-      * destruct (positional 16 (rev acc)) as [w|] eqn:Ep; [|discriminate].
-        destruct (is_scalar w) eqn:Es; [|discriminate].
-        apply cons_opt_some in H. destruct H as [v' [Hd ->]].
-        rewrite (braced_scalar _ _ Ep Es). cbn [push_opt]. f_equal. apply Hr. exact Hd.
-      * apply Hr. exact H.
+      * apply andb_prop in Hg. destruct Hg as [Hne Hgr].
+        destruct (hexdigs_positional (rev acc)) as [w Ep].
+        { destruct acc; [discriminate|]. cbn [rev]. intros E. apply (f_equal (@length N)) in E. rewrite app_length in E. cbn in E. lia. }
+        { rewrite forallb_rev. exact Hacc. }
+        rewrite Ep, (braced_eq _ _ Ep), (proj1 Hr Hgr).
+        destruct (is_scalar w); [apply push_cons_opt | reflexivity].
+      * apply andb_prop in Hg. destruct Hg as [Hc Hgr].
+        apply (proj2 Hr (c :: acc)); [cbn [forallb]; rewrite Hc, Hacc; reflexivity | exact Hgr].
 Qed.
 
 Lemma between_strip : forall k q tok c, between k q tok = Some c -> strip_quotes k tok = c.
@@ -213,13 +189,26 @@ Proof.
   destruct (x =? q); [|discriminate]. inversion H. reflexivity.
 Qed.
 
-(* text_ok, provable part: every text literal that HAS a denotation is stored with exactly that value *)
-Theorem text_ok_partial : forall tok v, text_lit tok = Some v -> text_value_model tok = v.
+Lemma text_token : forall tok, text_spelling tok = true ->
+  opens_with [34] tok = true /\ between 1 34 tok = Some (strip_quotes 1 tok)
+  /\ text_inner_ok TNorm (strip_quotes 1 tok) = true.
 Proof.
-  intros tok v H. unfold text_lit in H. destruct (opens_with [34] tok); [|discriminate].
-  unfold obind in H. destruct (between 1 34 tok) as [c|] eqn:Eb; [|discriminate].
-  unfold text_value_model, unescape_text. rewrite (between_strip _ _ _ _ Eb).
-  apply (text_core (length c) c (le_n _)). exact H.
+  intros tok H. unfold text_spelling in H. destruct tok as [|q r]; [discriminate|].
+  apply andb_prop in H. destruct H as [H Hin]. apply andb_prop in H. destruct H as [H Hlast].
+  apply andb_prop in H. destruct H as [Hq Hne].
+  unfold opens_with, between, strip_quotes. cbn [length combine forallb fst snd skipn].
+  unfold last_is in Hlast. unfold strip_last in Hin.
+  destruct (rev r) as [|x rr]; [discriminate|]. rewrite Hlast. cbn [tl] in *.
+  rewrite (N.eqb_sym 34 q), Hq. auto.
+Qed.
+
+(* text_ok: every text literal the grammar admits is stored with exactly its RFC 9682 value, or rejected exactly
+   when it has none *)
+Theorem text_ok : forall tok, text_spelling tok = true -> text_value_model tok = text_lit tok.
+Proof.
+  intros tok Hg. destruct (text_token tok Hg) as [Ho [Hb Hin]].
+  unfold text_lit, text_value_model, try_unescape_text. rewrite Ho, Hb. cbn [obind].
+  apply (text_core (length (strip_quotes 1 tok)) _ (le_n _)). exact Hin.
 Qed.
 
 (* the denotation is defined only on spellings the token grammar admits *)
@@ -344,21 +333,18 @@ Proof.
   eapply (proj1 (denote_grammar (length c) c (le_n _))). exact H.
 Qed.
 
-(* text_ok, the full statement, is FALSE of the faithful model: a lone surrogate escape is dropped silently *)
-Theorem text_ok_refuted : exists tok,          (* "\ud800" *)
-  text_spelling tok = true /\ text_lit tok = None /\ text_value_model tok = [].
-Proof. exists [34; 92; 117; 100; 56; 48; 48; 34]. vm_compute. auto. Qed.
-
-Theorem text_ok_refuted_swallow : exists tok,  (* "\uD800A": the well-formed escape A is swallowed as well *)
-  text_spelling tok = true /\ text_lit tok = None /\ text_value_model tok = [].
-Proof. exists [34; 92; 117; 68; 56; 48; 48; 92; 117; 48; 48; 52; 49; 34]. vm_compute. auto. Qed.
-
-Theorem text_ok_refuted_range : exists tok,    (* "\u{110000}" *)
-  text_spelling tok = true /\ text_lit tok = None /\ text_value_model tok = [].
-Proof. exists [34; 92; 117; 123; 49; 49; 48; 48; 48; 48; 125; 34]. vm_compute. auto. Qed.
+(* the three witnesses of kf-c07-text-escape-dropped (fixed by 51d94c0) are rejected now *)
+Example text_rejections :
+  text_spelling [34; 92; 117; 100; 56; 48; 48; 34] = true                                   (* "\ud800" *)
+  /\ text_value_model [34; 92; 117; 100; 56; 48; 48; 34] = None
+  /\ text_spelling [34; 92; 117; 68; 56; 48; 48; 92; 117; 48; 48; 52; 49; 34] = true        (* "\uD800A" *)
+  /\ text_value_model [34; 92; 117; 68; 56; 48; 48; 92; 117; 48; 48; 52; 49; 34] = None
+  /\ text_spelling [34; 92; 117; 123; 49; 49; 48; 48; 48; 48; 125; 34] = true               (* "\u{110000}" *)
+  /\ text_value_model [34; 92; 117; 123; 49; 49; 48; 48; 48; 48; 125; 34] = None.
+Proof. vm_compute. repeat split; reflexivity. Qed.
 
 (* non-vacuity: a, \u0041, the surrogate pair \uD83C\uDC73, \u{1F073}, \n *)
 Example text_example :
-  text_lit [34; 97; 92;117;48;48;52;49; 92;117;68;56;51;67; 92;117;68;67;55;51; 92;117;123;49;70;48;55;51;125; 92;110; 34]
+  text_value_model [34; 97; 92;117;48;48;52;49; 92;117;68;56;51;67; 92;117;68;67;55;51; 92;117;123;49;70;48;55;51;125; 92;110; 34]
   = Some [97; 65; 127091; 127091; 10].
 Proof. vm_compute. reflexivity. Qed.
